@@ -245,7 +245,7 @@ func (w *Writer) Close() {
 // Unlink is ignored: its slot was deleted together with the link and must not be taken for the
 // response to a request written after the reader was linked again.
 func (w *Writer) receive(pck *Packet, reader *Reader, link uint64) bool {
-	defer verifReceive(w, reader, pck)()
+	defer verifReceive(w, reader, pck, link)()
 	w.mu.Lock()
 	defer w.mu.Unlock()
 
